@@ -7,6 +7,7 @@ import (
 	"github.com/shpandrak/shpanstream/stream"
 	"github.com/shpandrak/shpanstream/utils/timeseries"
 	"github.com/shpandrak/shpanstream/utils/timeseries/tsquery"
+	"slices"
 )
 
 var _ Filter = SelectFieldsFilter{}
@@ -41,7 +42,8 @@ func (s SelectFieldsFilter) Filter(ctx context.Context, result Result) (Result, 
 
 		// Prepare field to get metadata and value supplier
 		// Concatenate original fields with already-processed new fields so refs can resolve
-		availableFields := append(result.FieldsMeta(), newFieldsMeta...)
+		// Clip before appending so that the caller's metadata/row slices are never written to (spare capacity)
+		availableFields := append(slices.Clip(result.FieldsMeta()), newFieldsMeta...)
 		fieldMeta, valueSupplier, err := PrepareField(ctx, sf.Meta, sf.Value, availableFields)
 		if err != nil {
 			return util.DefaultValue[Result](), fmt.Errorf("failed preparing selected field %s: %w", sf.Meta.Urn, err)
@@ -55,6 +57,7 @@ func (s SelectFieldsFilter) Filter(ctx context.Context, result Result) (Result, 
 		newFieldsMeta,
 		stream.MapWithErrAndCtx(result.Stream(), func(ctx context.Context, record timeseries.TsRecord[[]any]) (timeseries.TsRecord[[]any], error) {
 			currRecord := record
+			currRecord.Value = slices.Clip(record.Value)
 			for _, supplier := range valueSuppliers {
 				value, err := supplier(ctx, currRecord)
 				if err != nil {
